@@ -212,13 +212,36 @@ def correspondence(ctx, violations, known_hits):
             if nv <= 12:
                 violations.append({"kind": "loader", "file_bytes": files[i].hex(), "cli_exit": rc, "cli_output": got_out,
                                    "cli_stderr": se.decode(errors="replace")[-300:], "model": [code, out, kind]})
+    # files far longer than the address space (sparse: they cost no disk): the model cannot be handed 10^11 bytes, so the
+    # expectation comes from the THEOREM C06_loader_iff / C06_loader_rejects - odd length: exit 1 (not aligned); even length
+    # beyond the address space: exit xEE (too long) - never a crash, never a hang, whatever memory the machine has
+    huge = []
+    for size in (131074, 131075, 1 << 20, (1 << 20) + 1, 1 << 32, (1 << 32) + 1, 200 * (1 << 30), 200 * (1 << 30) + 1, 8 * (1 << 40), 8 * (1 << 40) + 1):
+        sub = os.path.join(d, "huge%d" % len(huge)); os.makedirs(sub, exist_ok=True)
+        name = os.path.join(sub, "big.lc3" if len(huge) % 4 < 2 else "big.obj")
+        try:
+            with open(name, "wb") as f:
+                f.write(b"\x30\x00\xf0\x25"); f.truncate(size)
+        except OSError:
+            continue                      # the file system cannot hold a file of this (apparent) size
+        rc, so, se = clicommon.run_cli(exe, ["run", os.path.basename(name), "--minimal"], sub, stdin=b"", timeout=60)
+        os.remove(name)
+        want = 1 if size % 2 else 238
+        ev += 1
+        huge.append((size, rc))
+        sigs.add(("huge", size % 2, rc))
+        if rc != want:
+            nv += 1
+            violations.append({"kind": "loader-huge-file", "apparent_size_bytes": size, "first_bytes": "3000f025 then zeros (sparse)", "cli_exit": rc,
+                               "expected_exit": want, "expected_from": "C06_loader_iff / C06_loader_rejects (odd length: 1; even and too long: 238)",
+                               "cli_stderr": se.decode(errors="replace")[-300:]})
     ctx.cleanup()
     return {
-        "evaluations": ev, "distinct_nontrivial": len(sigs),
+        "evaluations": ev, "distinct_nontrivial": len(sigs), "huge_sparse_files": [list(x) for x in huge],
         "rule": "CLI: `lace compile` bytes and exit status vs the model's object bytes for random programs (both feature settings; the destination absent, or already holding a longer or a shorter object file), "
                 "all origins); `lace run file.lc3` vs `lace run file.asm` vs the model (exit status and program output, with stdin); "
                 "the same through the other invocation forms (`lace FILE`, the object under .obj, `compile` without a destination); loader fed byte strings of every length 0-9, odd lengths, images ending at/below/above the top of memory and random "
-                "images, as .lc3 and .obj; distinct = distinct (kind, outcome, size class)",
+                "images, as .lc3 and .obj; sparse files of 128 KiB+2 .. 8 TiB apparent size, even and odd (expected exit from C06_loader_iff); distinct = distinct (kind, outcome, size class)",
         "histogram": hist, "loader_histogram": {str(k): v for k, v in lhist.items()}, "samples": samples, "mismatches": nv,
     }
 
